@@ -18,7 +18,7 @@ import IrVerif.Model.JournalKernel
                    the model's call tree of every call, and the journaled run.
 `journal.flat`   : a flat history (`runFlat`): raw enter / exit (normal or exceptional) / scripted operations,
                    plus taking a callable from the class table (`capture`) and calling it later (`callCaptured`,
-                   or `callCapturedGuarded` for `guarded`); answers the control state after every item, whether the
+                   or, for `guarded`, the checked code: `runFlatG` / `callCapturedG`); answers the control state after every item, whether the
                    word is well bracketed, the captured implementations, outcomes, entries.
 `journal.run`    : a block program whose instrumented calls are scripted call trees (what the
                    original functions did in an un-journaled run); answers outcomes, the ghost
@@ -138,6 +138,10 @@ def ctlStateJ {σ : Type} (w : World σ) (nj : Nat) (refused : Bool) : Json :=
           | none => Json.null
           | some t => tableJ t)).toArray)]
 
+/-- `TableActive` decided: every layer of every slot of the class table belongs to an active journal -/
+def tableActiveB {σ : Type} (w : World σ) : Bool :=
+  (List.range nSlots).all fun k => (w.table k).layers.all fun j => (w.journals j).active
+
 /-- one item of a flat history (`journal.flat`): an event of `runFlat`, or taking / calling a callable -/
 inductive FItem where
   | ev (e : FEv S)
@@ -186,7 +190,9 @@ def handle : Handler := fun m j =>
              ("op", Json.str s.op), ("target", Json.str s.attr),
              ("details_none", toJson (decide (m.details = .none))),
              ("details_before", toJson (detailsBefore k)), ("record_after", toJson (recordAfter k)),
-             ("returns_result", toJson (returnsResult k)), ("records_self", toJson (recordsSelf k))])).toArray),
+             ("returns_result", toJson (returnsResult k)), ("records_self", toJson (recordsSelf k)),
+             ("guard_forwards", toJson (guardForwards k)), ("guard_returns_result", toJson (guardReturnsResult k)),
+             ("guard_propagates", toJson (guardPropagates k))])).toArray),
         ("n_meta", toJson slotMeta.length)]
   | "journal.details" => some do
       let k ← getNat j "k"
@@ -246,7 +252,9 @@ def handle : Handler := fun m j =>
       let rec trees (w : KW) : List KCall → List Json
         | [] => []
         | c :: rest => Json.arr ((callTreeX w c).map l2J).toArray :: trees (IrVerif.Kernel.stepAny w c.op).1 rest
-      let r := runBlock kCfg fuel kb.toBlock (initialWorld { w := IrVerif.Kernel.World.empty })
+      let guarded := (getBool j "guarded").toOption.getD false
+      let r := if guarded then runBlockG kCfg fuel kb.toBlock (initialWorld { w := IrVerif.Kernel.World.empty })
+        else runBlock kCfg fuel kb.toBlock (initialWorld { w := IrVerif.Kernel.World.empty })
       return obj [("trees", Json.arr (trees IrVerif.Kernel.World.empty calls).toArray),
         ("log", Json.arr (r.1.log.map outJ).toArray),
         ("exc", optNatJ r.2),
@@ -301,6 +309,7 @@ def handle : Handler := fun m j =>
       let mut caps : List (String × Captured) := []
       let mut states : Array Json := #[]
       let mut capJ : Array Json := #[]
+      let mut tact : Array Json := #[]
       for it in items do
         let mut refused := false
         match it with
@@ -308,7 +317,7 @@ def handle : Handler := fun m j =>
           match e with
           | .enter jid => refused := (w.journals jid).active
           | _ => pure ()
-          w := runFlat cfg fuel [e] w
+          w := if guarded then runFlatG cfg fuel [e] w else runFlat cfg fuel [e] w
         | .capture name k self =>
           let c := capture k self w
           caps := (name, c) :: caps
@@ -316,12 +325,14 @@ def handle : Handler := fun m j =>
         | .callcap name id =>
           match caps.find? (·.1 == name) with
           | some (_, c) =>
-            let r := if guarded then callCapturedGuarded cfg fuel c (.int id) w else callCaptured cfg fuel c (.int id) w
+            let r := if guarded then callCapturedG cfg fuel c (.int id) w else callCaptured cfg fuel c (.int id) w
             w := { r.1 with log := r.1.log ++ [r.2] }
           | none => throw s!"callcap of an unknown callable {name}"
         states := states.push (ctlStateJ w nj refused)
+        tact := tact.push (toJson (tableActiveB w))
       let word := items.filterMap itemEv
       return obj [("states", Json.arr states),
+        ("table_active", Json.arr tact),
         ("wb", toJson (decide (WellBracketed word))),
         ("caps", Json.arr capJ),
         ("log", Json.arr (w.log.map outJ).toArray),
@@ -354,8 +365,9 @@ def handle : Handler := fun m j =>
             else if detailsEffect.contains n.toNat then some (s ++ [100000 + n.toNat])
             else some s
           | _ => some s }
+      let guarded := (getBool j "guarded").toOption.getD false
       let runOne := fun (blk : Block S) =>
-        let r := runBlock cfg fuel blk (initialWorld [])
+        let r := if guarded then runBlockG cfg fuel blk (initialWorld []) else runBlock cfg fuel blk (initialWorld [])
         obj [("log", Json.arr (r.1.log.map outJ).toArray),
              ("exc", optNatJ r.2),
              ("ir", natsJ r.1.ir),
